@@ -314,7 +314,8 @@ mod sc {
     // ---------------------------------------------------------------------------------------------
     // renderer: shell text (+ the files the `.` built-in reads)
 
-    pub struct Render { rng: Rng, pub files: Vec<(String, String)> }
+    pub struct Render { rng: Rng, pub files: Vec<(String, String)>, /// the command may be rendered inside a loop: `break`/`continue` are no errors there
+        pub maybe_in_loop: bool }
 
     impl Render {
         fn pick<'a>(&mut self, xs: &[&'a str]) -> &'a str { xs[self.rng.below(xs.len())] }
@@ -356,7 +357,8 @@ mod sc {
                 }
                 Body::Rep(n) => {
                     if ty == "sp" && *n == 1 && self.rng.chance(2, 3) {
-                        self.pick(&["shift 99", "break", "continue", "readonly ro=2", "export ro=2", "unset ro", "unset -v ro"]).to_string()
+                        if self.maybe_in_loop { self.pick(&["shift 99", "readonly ro=2", "export ro=2", "unset ro", "unset -v ro"]).to_string() }
+                        else { self.pick(&["shift 99", "break", "continue", "readonly ro=2", "export ro=2", "unset ro", "unset -v ro"]).to_string() }
                     } else if ty == "sp" && *n == 2 && self.rng.chance(2, 3) {
                         self.pick(&["set -o no_such_option", "return x", "return 1 2", "exit x", "exit 1 2", "break 0", "continue x",
                                     "times x", "unset -x", "export -x", "readonly -x", "exec -x", "shift x", "trap -x", "eval -x", ". -x",
@@ -425,7 +427,7 @@ mod sc {
 hret0() { probe 7; return 0; probe 8; }\nhret1() { probe 7; return 1; probe 8; }\nhret3() { probe 7; return 3; probe 8; }\n";
 
     pub fn render(c: &Case) -> (String, Vec<(String, String)>) {
-        let mut r = Render { rng: Rng::new(c.seed ^ 0x5C), files: vec![] };
+        let mut r = Render { rng: Rng::new(c.seed ^ 0x5C), files: vec![], maybe_in_loop: false };
         let mut out = String::from(PROLOGUE);
         if c.errexit { out.push_str(r.pick(&["set -e\n", "set -o errexit\n"])); }
         if let Some(t) = &c.trap {
@@ -563,6 +565,24 @@ hret0() { probe 7; return 0; probe 8; }\nhret1() { probe 7; return 1; probe 8; }
         })
     }
 
+    /// `tick c k` (a copy of the one in yverif::prog): succeeds while the shell variable `_t<c>` is below k
+    /// (and increments it)
+    fn tick_main(env: &mut VEnv, args: Vec<Field>) -> BuiltinFuture<'_> {
+        let c = args.first().map(|f| f.value.clone()).unwrap_or_default();
+        let k: u32 = args.get(1).and_then(|f| f.value.parse().ok()).unwrap_or(0);
+        let name = format!("_t{c}");
+        let v: u32 = env.variables.get(&name)
+            .and_then(|v| match &v.value { Some(yash_env::variable::Value::Scalar(s)) => Some(s.clone()), _ => None })
+            .and_then(|s| s.parse().ok())
+            .unwrap_or(0);
+        let st = if v < k {
+            let mut var = env.variables.get_or_new(&name, Scope::Global);
+            let _ = var.assign((v + 1).to_string(), None);
+            0
+        } else { 1 };
+        Box::pin(async move { ExitStatus(st).into() })
+    }
+
     pub struct Observed { pub stdout: Vec<u8>, pub div: String, pub pre: i32, pub status: i32, pub stuck: bool }
 
     fn show_opt(e: Option<ExitStatus>) -> String { e.map(|e| e.0.to_string()).unwrap_or_else(|| "-".into()) }
@@ -627,6 +647,7 @@ hret0() { probe 7; return 0; probe 8; }\nhret1() { probe 7; return 1; probe 8; }
                                ("b_ex", Type::Extension), ("b_su", Type::Substitutive)] {
                 env.builtins.insert(name, Builtin::new(ty, b_main));
             }
+            env.builtins.insert("tick", Builtin::new(Type::Mandatory, tick_main));
             for path in ["/bin/b_su", "/bin/xt_noexec"] {
                 let mut inode = Inode::new(Vec::new());
                 inode.body = FileBody::Regular { content: vec![], is_native_executable: true };
@@ -671,7 +692,11 @@ hret0() { probe 7; return 0; probe 8; }\nhret1() { probe 7; return 1; probe 8; }
 
     pub fn observe(c: &Case) -> String {
         let (script, files) = render(c);
-        let o = run(script, files, c.interactive);
+        observe_script(script, files, c.interactive)
+    }
+
+    pub fn observe_script(script: String, files: Vec<(String, String)>, interactive: bool) -> String {
+        let o = run(script, files, interactive);
         if o.stuck { return "TIMEOUT".into(); }
         let mut trace = vec![];
         for line in String::from_utf8_lossy(&o.stdout).lines() {
@@ -783,6 +808,392 @@ hret0() { probe 7; return 0; probe 8; }\nhret1() { probe 7; return 1; probe 8; }
         }
         "ok".into()
     }
+
+    // =============================================================================================
+    // The `nc` family (wave 3): structured simple commands at ANY depth of the constructs that decide
+    // whether errexit applies and where a shell error ends — groups (with redirections), subshells,
+    // `if`, `while`/`until`, `!`, and-or lists and function calls, nested in each other, with the
+    // control built-ins (`break`, `continue`, `return`, `exit`, `set -e`/`set +e`) among the leaves.
+    // Model: lean/YashModel/Errexit/Nested.lean (`execN`); grammar: Errexit/NcDriver.lean.
+    // =============================================================================================
+    pub mod nc {
+        use super::*;
+
+        #[derive(Clone, Debug)]
+        pub enum Ctl { Probe(u32), St(u32), Brk(u32), Cont(u32), Ret(Option<u32>), Exit(Option<u32>), SetE(bool), Tick(u32, u32) }
+        #[derive(Clone, Debug)]
+        pub enum NCmd {
+            S(Simple), Ctl(Ctl), Grp(Redirs, Vec<NCmd>), Sub(Vec<NCmd>), If(Vec<NCmd>, Vec<NCmd>, Option<Vec<NCmd>>),
+            Loop(bool, Vec<NCmd>, Vec<NCmd>), Neg(Box<NCmd>), Ao(Box<NCmd>, Vec<(bool, NCmd)>), Call(Vec<NCmd>),
+        }
+        #[derive(Clone, Debug)]
+        pub enum NLine { Cmds(Vec<NCmd>), SynErr }
+        #[derive(Clone, Debug)]
+        pub struct NCase { pub seed: u64, pub errexit: bool, pub trap: bool, pub lines: Vec<NLine> }
+
+        // ---- writer
+        fn sx_opt(n: &Option<u32>) -> String { n.map(|n| format!(" {n}")).unwrap_or_default() }
+        fn sx_ctl(c: &Ctl) -> String {
+            match c {
+                Ctl::Probe(m) => format!("(probe {m})"), Ctl::St(n) => format!("(st {n})"),
+                Ctl::Brk(n) => format!("(brk {n})"), Ctl::Cont(n) => format!("(cont {n})"),
+                Ctl::Ret(n) => format!("(ret{})", sx_opt(n)), Ctl::Exit(n) => format!("(exit{})", sx_opt(n)),
+                Ctl::SetE(b) => format!("(sete {})", *b as u8), Ctl::Tick(c, k) => format!("(tick {c} {k})"),
+            }
+        }
+        fn sx_list(v: &[NCmd]) -> String { v.iter().map(sx_ncmd).collect::<Vec<_>>().join(" ") }
+        pub fn sx_ncmd(n: &NCmd) -> String {
+            match n {
+                NCmd::S(c) => sx_simple(c),
+                NCmd::Ctl(c) => format!("(ctl {})", sx_ctl(c)),
+                NCmd::Grp(r, b) => format!("(grp {} {})", sx_redirs(r), sx_list(b)),
+                NCmd::Sub(b) => format!("(sub {})", sx_list(b)),
+                NCmd::If(c, b, e) => format!("(if ({}) ({}) {})", sx_list(c), sx_list(b),
+                    e.as_ref().map(|e| format!("({})", sx_list(e))).unwrap_or_else(|| "-".into())),
+                NCmd::Loop(u, c, b) => format!("(loop {} ({}) ({}))", *u as u8, sx_list(c), sx_list(b)),
+                NCmd::Neg(c) => format!("(neg {})", sx_ncmd(c)),
+                NCmd::Ao(f, r) => {
+                    let mut out = format!("(ao {}", sx_ncmd(f));
+                    for (k, c) in r { out.push_str(&format!(" ({} {})", *k as u8, sx_ncmd(c))); }
+                    out.push(')');
+                    out
+                }
+                NCmd::Call(b) => format!("(call {})", sx_list(b)),
+            }
+        }
+        pub fn sx_case(c: &NCase) -> String {
+            let mut out = format!("nc {} ({} {})", c.seed, c.errexit as u8, c.trap as u8);
+            for l in &c.lines {
+                match l {
+                    NLine::SynErr => out.push_str(" (synerr)"),
+                    NLine::Cmds(v) => out.push_str(&format!(" (L {})", sx_list(v))),
+                }
+            }
+            out
+        }
+
+        // ---- reader (replay / corpus)
+        fn to_ctl(x: &Sx) -> Option<Ctl> {
+            let (h, r) = head(x)?;
+            match (h, r.len()) {
+                ("probe", 1) => Some(Ctl::Probe(num(&r[0])?)), ("st", 1) => Some(Ctl::St(num(&r[0])?)),
+                ("brk", 1) => Some(Ctl::Brk(num(&r[0])?)), ("cont", 1) => Some(Ctl::Cont(num(&r[0])?)),
+                ("ret", 0) => Some(Ctl::Ret(None)), ("ret", 1) => Some(Ctl::Ret(Some(num(&r[0])?))),
+                ("exit", 0) => Some(Ctl::Exit(None)), ("exit", 1) => Some(Ctl::Exit(Some(num(&r[0])?))),
+                ("sete", 1) => Some(Ctl::SetE(num(&r[0])? != 0)),
+                ("tick", 2) => Some(Ctl::Tick(num(&r[0])?, num(&r[1])?)),
+                _ => None,
+            }
+        }
+        fn to_list(v: &[Sx]) -> Option<Vec<NCmd>> { v.iter().map(to_ncmd).collect() }
+        fn sub_list(x: &Sx) -> Option<Vec<NCmd>> { if let Sx::L(v) = x { to_list(v) } else { None } }
+        fn to_ncmd(x: &Sx) -> Option<NCmd> {
+            let (h, r) = head(x)?;
+            match h {
+                "s" => Some(NCmd::S(to_simple(x)?)),
+                "ctl" if r.len() == 1 => Some(NCmd::Ctl(to_ctl(&r[0])?)),
+                "grp" if !r.is_empty() => Some(NCmd::Grp(to_redirs(&r[0])?, to_list(&r[1..])?)),
+                "sub" => Some(NCmd::Sub(to_list(r)?)),
+                "if" if r.len() == 3 => {
+                    let e = match &r[2] { Sx::A(a) if a == "-" => None, other => Some(sub_list(other)?) };
+                    Some(NCmd::If(sub_list(&r[0])?, sub_list(&r[1])?, e))
+                }
+                "loop" if r.len() == 3 => Some(NCmd::Loop(num(&r[0])? != 0, sub_list(&r[1])?, sub_list(&r[2])?)),
+                "neg" if r.len() == 1 => Some(NCmd::Neg(Box::new(to_ncmd(&r[0])?))),
+                "ao" if !r.is_empty() => {
+                    let mut rest = vec![];
+                    for p in &r[1..] {
+                        let Sx::L(v) = p else { return None };
+                        if v.len() != 2 { return None; }
+                        rest.push((num(&v[0])? != 0, to_ncmd(&v[1])?));
+                    }
+                    Some(NCmd::Ao(Box::new(to_ncmd(&r[0])?), rest))
+                }
+                "call" => Some(NCmd::Call(to_list(r)?)),
+                _ => None,
+            }
+        }
+        pub fn parse_case(case: &str) -> Option<NCase> {
+            let t = tokenize(case);
+            if t.first()? != "nc" { return None; }
+            let seed: u64 = t.get(1)?.parse().ok()?;
+            let mut i = 2;
+            let flags = parse_sx(&t, &mut i)?;
+            let Sx::L(f) = &flags else { return None };
+            if f.len() != 2 { return None; }
+            let mut lines = vec![];
+            while i < t.len() {
+                let x = parse_sx(&t, &mut i)?;
+                let (h, r) = head(&x)?;
+                match h {
+                    "synerr" => lines.push(NLine::SynErr),
+                    "L" => lines.push(NLine::Cmds(to_list(r)?)),
+                    _ => return None,
+                }
+            }
+            Some(NCase { seed, errexit: num(&f[0])? != 0, trap: num(&f[1])? != 0, lines })
+        }
+
+        // ---- renderer
+        struct NRender { r: Render, funcs: Vec<String> }
+        impl NRender {
+            fn ctl(&mut self, c: &Ctl) -> String {
+                match c {
+                    Ctl::Probe(m) => format!("probe {m}"),
+                    Ctl::St(n) => format!("st {n}"),
+                    Ctl::Brk(n) => if *n == 1 && self.r.rng.chance(1, 2) { "break".into() } else { format!("break {n}") },
+                    Ctl::Cont(n) => if *n == 1 && self.r.rng.chance(1, 2) { "continue".into() } else { format!("continue {n}") },
+                    Ctl::Ret(n) => match n { Some(n) => format!("return {n}"), None => "return".into() },
+                    Ctl::Exit(n) => match n { Some(n) => format!("exit {n}"), None => "exit".into() },
+                    Ctl::SetE(b) => if *b { self.r.pick(&["set -e", "set -o errexit"]).into() } else { self.r.pick(&["set +e", "set +o errexit"]).into() },
+                    Ctl::Tick(c, k) => format!("tick {c} {k}"),
+                }
+            }
+            fn list(&mut self, v: &[NCmd]) -> String { v.iter().map(|n| self.ncmd(n)).collect::<Vec<_>>().join("; ") }
+            fn ncmd(&mut self, n: &NCmd) -> String {
+                match n {
+                    NCmd::S(c) => self.r.simple(c),
+                    NCmd::Ctl(c) => self.ctl(c),
+                    NCmd::Grp(r, b) => {
+                        let body = self.list(b);
+                        let c = Simple { w: Words::Ok, t: Target::Absent, r: r.clone(), a: Assigns::None };
+                        let redir = if matches!(r, Redirs::None) { String::new() } else { format!(" {}", self.r.simple(&c)) };
+                        format!("{{ {body}; }}{redir}")
+                    }
+                    NCmd::Sub(b) => format!("( {} )", self.list(b)),
+                    NCmd::If(c, b, e) => {
+                        let (c, b) = (self.list(c), self.list(b));
+                        match e {
+                            Some(e) => format!("if {c}; then {b}; else {}; fi", self.list(e)),
+                            None => format!("if {c}; then {b}; fi"),
+                        }
+                    }
+                    NCmd::Loop(u, c, b) => {
+                        let (c, b) = (self.list(c), self.list(b));
+                        format!("{} {c}; do {b}; done", if *u { "until" } else { "while" })
+                    }
+                    NCmd::Neg(c) => format!("! {}", self.ncmd(c)),
+                    NCmd::Ao(f, rest) => {
+                        let mut out = self.ncmd(f);
+                        for (k, c) in rest {
+                            out.push_str(if *k { " && " } else { " || " });
+                            out.push_str(&self.ncmd(c));
+                        }
+                        out
+                    }
+                    NCmd::Call(b) => {
+                        let body = self.list(b);
+                        let name = format!("nf{}", self.funcs.len());
+                        self.funcs.push(format!("{name}() {{ {body}; }}\n"));
+                        name
+                    }
+                }
+            }
+        }
+        pub fn render(c: &NCase) -> (String, Vec<(String, String)>) {
+            let mut r = NRender { r: Render { rng: Rng::new(c.seed ^ 0x9C), files: vec![], maybe_in_loop: true }, funcs: vec![] };
+            let mut body = String::new();
+            for l in &c.lines {
+                match l {
+                    NLine::SynErr => body.push_str(r.r.pick(&["fi\n", ")\n", "st 0 && ;\n", "done\n"])),
+                    NLine::Cmds(v) => { body.push_str(&r.list(v)); body.push('\n'); }
+                }
+            }
+            // every function is defined before the first line of the script runs
+            let mut out = String::from(PROLOGUE);
+            for f in &r.funcs { out.push_str(f); }
+            if c.errexit { out.push_str(r.r.pick(&["set -e\n", "set -o errexit\n"])); }
+            if c.trap { out.push_str("trap 'probe 99' EXIT\n"); }
+            out.push_str(&body);
+            (out, r.r.files)
+        }
+
+        // ---- generator
+        pub struct NGen { pub g: Gen, pub budget: i32, pub counter: u32 }
+        impl NGen {
+            fn leaf(&mut self, in_loop: bool, in_fn: bool, no_cont: bool) -> NCmd {
+                match self.g.rng.below(100) {
+                    0..=39 => NCmd::S(self.g.simple()),
+                    40..=61 => NCmd::Ctl(Ctl::Probe(self.g.m())),
+                    62..=74 => NCmd::Ctl(Ctl::St(self.g.status())),
+                    75..=83 => {
+                        let n = 1 + self.g.rng.below(2) as u32;
+                        let brk = no_cont || self.g.rng.chance(1, 2);
+                        if in_loop || self.g.rng.chance(1, 4) { if brk { NCmd::Ctl(Ctl::Brk(n)) } else { NCmd::Ctl(Ctl::Cont(n)) } }
+                        else { NCmd::Ctl(Ctl::Probe(self.g.m())) }
+                    }
+                    84..=90 => {
+                        if in_fn || self.g.rng.chance(1, 5) { NCmd::Ctl(Ctl::Ret(*self.g.rng.pick(&[None, Some(0), Some(1), Some(3)]))) }
+                        else { NCmd::Ctl(Ctl::St(self.g.status())) }
+                    }
+                    91..=93 => NCmd::Ctl(Ctl::Exit(*self.g.rng.pick(&[None, Some(0), Some(1), Some(4)]))),
+                    _ => NCmd::Ctl(Ctl::SetE(self.g.rng.chance(1, 2))),
+                }
+            }
+            fn list(&mut self, depth: u32, in_loop: bool, in_fn: bool, no_cont: bool) -> Vec<NCmd> {
+                let mut v = vec![self.ncmd(depth, in_loop, in_fn, no_cont)];
+                while self.g.rng.chance(2, 5) && v.len() < 3 { v.push(self.ncmd(depth, in_loop, in_fn, no_cont)); }
+                if self.g.rng.chance(1, 2) { v.push(NCmd::Ctl(Ctl::Probe(self.g.m()))); }
+                v
+            }
+            /// a command that is not an and-or list or a negation (what `!` and `&&`/`||` take as operands)
+            fn operand(&mut self, depth: u32, in_loop: bool, in_fn: bool, no_cont: bool) -> NCmd {
+                loop {
+                    let n = self.ncmd(depth, in_loop, in_fn, no_cont);
+                    if !matches!(n, NCmd::Ao(..) | NCmd::Neg(_)) { return n; }
+                }
+            }
+            pub fn ncmd(&mut self, depth: u32, in_loop: bool, in_fn: bool, no_cont: bool) -> NCmd {
+                self.budget -= 1;
+                if depth == 0 || self.budget <= 0 || self.g.rng.chance(1, 4) { return self.leaf(in_loop, in_fn, no_cont); }
+                let d = depth - 1;
+                match self.g.rng.below(100) {
+                    0..=15 => {
+                        let r = match self.g.rng.below(10) { 0..=5 => Redirs::None, 6 => Redirs::Ok, 7 => Redirs::Cs(self.g.status()), 8 => Redirs::Err, _ => Redirs::XErr };
+                        NCmd::Grp(r, self.list(d, in_loop, in_fn, no_cont))
+                    }
+                    16..=27 => NCmd::Sub(self.list(d, in_loop, in_fn, no_cont)),
+                    28..=42 => {
+                        let c = self.list(d, in_loop, in_fn, no_cont);
+                        let b = self.list(d, in_loop, in_fn, no_cont);
+                        let e = if self.g.rng.chance(1, 2) { Some(self.list(d, in_loop, in_fn, no_cont)) } else { None };
+                        NCmd::If(c, b, e)
+                    }
+                    43..=57 => {
+                        // the condition ends in `tick c k` (succeeds k times): the loop ends; nothing in the
+                        // condition may `continue` (the tick would never be reached again)
+                        self.counter += 1;
+                        let until = self.g.rng.chance(1, 3);
+                        let tick = NCmd::Ctl(Ctl::Tick(self.counter, 1 + self.g.rng.below(2) as u32));
+                        let last = if until { NCmd::Neg(Box::new(tick)) } else { tick };
+                        let mut c = vec![];
+                        if self.g.rng.chance(1, 2) { c.push(self.ncmd(d, false, in_fn, true)); }
+                        c.push(last);
+                        let b = self.list(d, true, in_fn, no_cont);
+                        NCmd::Loop(until, c, b)
+                    }
+                    58..=67 => NCmd::Neg(Box::new(self.operand(d, in_loop, in_fn, no_cont))),
+                    68..=84 => {
+                        let f = if self.g.rng.chance(1, 4) { NCmd::Neg(Box::new(self.operand(d, in_loop, in_fn, no_cont))) } else { self.operand(d, in_loop, in_fn, no_cont) };
+                        let mut rest = vec![];
+                        let n = self.g.rng.below(3);   // 0: an and-or list of one pipeline
+                        for _ in 0..n { rest.push((self.g.rng.chance(1, 2), self.operand(d, in_loop, in_fn, no_cont))); }
+                        NCmd::Ao(Box::new(f), rest)
+                    }
+                    _ => NCmd::Call(self.list(d, in_loop, true, no_cont)),
+                }
+            }
+            pub fn case(&mut self, seed: u64, depth: u32) -> NCase {
+                let errexit = self.g.rng.chance(1, 2);
+                let trap = self.g.rng.chance(1, 2);
+                let nlines = 1 + self.g.rng.below(2);
+                let mut lines = vec![];
+                for k in 0..nlines {
+                    if k > 0 && self.g.rng.chance(1, 8) { lines.push(NLine::SynErr); continue; }
+                    let mut v = vec![self.ncmd(depth, false, false, false)];
+                    if self.g.rng.chance(1, 3) { v.push(self.ncmd(depth.saturating_sub(1), false, false, false)); }
+                    v.push(NCmd::Ctl(Ctl::Probe(self.g.m())));
+                    lines.push(NLine::Cmds(v));
+                }
+                lines.push(NLine::Cmds(vec![NCmd::Ctl(Ctl::Probe(self.g.m()))]));
+                NCase { seed, errexit, trap, lines }
+            }
+        }
+
+        pub fn observe(c: &NCase) -> String {
+            let (script, files) = render(c);
+            observe_script(script, files, false)
+        }
+        pub fn run_case(case: &str) -> String {
+            match parse_case(case) {
+                Some(c) => {
+                    yverif::proto::watch_case(case, 60);
+                    yverif::proto::guarded(|| observe(&c))
+                }
+                None => "bad-case".into(),
+            }
+        }
+
+        // ---- oracle (independent of the Lean model)
+        /// the first command the construct executes, when that is a structured simple command reached without
+        /// entering a subshell or passing a group whose redirection fails; `exempt`: some construct on the way is a
+        /// context where errexit is ignored
+        fn first_leaf<'a>(n: &'a NCmd, exempt: &mut bool) -> Option<&'a Simple> {
+            match n {
+                NCmd::S(c) => Some(c),
+                NCmd::Grp(r, b) => if matches!(r, Redirs::Err | Redirs::XErr) { None } else { first_leaf(b.first()?, exempt) },
+                NCmd::Call(b) => first_leaf(b.first()?, exempt),
+                NCmd::If(c, _, _) | NCmd::Loop(_, c, _) => { *exempt = true; first_leaf(c.first()?, exempt) }
+                NCmd::Neg(c) => { *exempt = true; first_leaf(c, exempt) }
+                NCmd::Ao(f, rest) => { if !rest.is_empty() { *exempt = true; } first_leaf(f, exempt) }
+                NCmd::Sub(_) | NCmd::Ctl(_) => None,
+            }
+        }
+        fn markers(n: &NCmd, out: &mut Vec<u32>) {
+            match n {
+                NCmd::S(c) => markers_simple(c, out),
+                NCmd::Ctl(Ctl::Probe(m)) => out.push(*m),
+                NCmd::Ctl(_) => {}
+                NCmd::Grp(_, b) | NCmd::Sub(b) | NCmd::Call(b) => b.iter().for_each(|n| markers(n, out)),
+                NCmd::If(c, b, e) => {
+                    c.iter().chain(b.iter()).for_each(|n| markers(n, out));
+                    if let Some(e) = e { e.iter().for_each(|n| markers(n, out)); }
+                }
+                NCmd::Loop(_, c, b) => c.iter().chain(b.iter()).for_each(|n| markers(n, out)),
+                NCmd::Neg(c) => markers(c, out),
+                NCmd::Ao(f, rest) => { markers(f, out); rest.iter().for_each(|(_, n)| markers(n, out)); }
+            }
+        }
+        /// (1) the EXIT action's marker exactly once unless the shell was aborted; (2) when the first command the
+        /// script executes — at whatever depth of groups, functions, conditions, negations and and-or lists — has a
+        /// shell error that docs/src/termination.md says ends the shell, or is a plain failing command where errexit
+        /// applies (docs/src/language/commands/exit_status.md: not in a condition / negation / non-last and-or
+        /// pipeline, functions and groups called from there included), no probe of the script runs and the exit
+        /// status is the error's / the command's
+        pub fn oracle(case: &str, obs: &str) -> String {
+            let Some(c) = parse_case(case) else { return "-".into() };
+            if !obs.starts_with("trace=") { return "-".into(); }
+            let trace = obs.strip_prefix("trace=").and_then(|s| s.split(' ').next()).unwrap_or("");
+            let entries: Vec<&str> = trace.split(',').filter(|e| !e.is_empty()).collect();
+            let mut verdict = "-".to_string();
+            if c.trap {
+                let n = entries.iter().filter(|e| e.starts_with("99:")).count();
+                let aborted = obs.contains(" div=Abort");
+                if aborted && n != 0 { return "FAIL:exit-trap-ran-after-abort".into(); }
+                if !aborted && n != 1 { return format!("FAIL:exit-trap-ran-{n}-times"); }
+                if !aborted && !entries.last().unwrap().starts_with("99:") { return "FAIL:commands-ran-after-exit-trap".into(); }
+                verdict = "ok".into();
+            }
+            let Some(NLine::Cmds(first)) = c.lines.first() else { return verdict };
+            let Some(n) = first.first() else { return verdict };
+            let mut exempt = false;
+            let Some(cmd) = first_leaf(n, &mut exempt) else { return verdict };
+            let applies = c.errexit && !exempt;
+            let (class, st) = match shell_error(cmd) {
+                Some(("redirection", st)) => if applies { ("redirection", st) } else { return verdict },
+                Some(x) => x,
+                None => match (&cmd.w, &cmd.t, &cmd.r, &cmd.a) {
+                    (Words::Ok, Target::Ext(st), Redirs::None, Assigns::None) if applies => ("errexit", *st),
+                    _ => return verdict,
+                },
+            };
+            let mut script_markers = vec![];
+            for l in &c.lines {
+                if let NLine::Cmds(v) = l { for n in v { markers(n, &mut script_markers); } }
+            }
+            for e in &entries {
+                let m: u32 = e.split(':').next().and_then(|m| m.parse().ok()).unwrap_or(0);
+                if script_markers.contains(&m) {
+                    return format!("FAIL:ran-after-{class}-at-depth:probe-{m}");
+                }
+            }
+            if !obs.ends_with(&format!(" status={st}")) {
+                return format!("FAIL:exit-status-after-{class}-at-depth:expected-{st}");
+            }
+            "ok".into()
+        }
+    }
+
 }
 
 fn main() {
@@ -793,6 +1204,12 @@ fn main() {
         for c in fixed {
             if let Some(sc) = sc::parse_case(&c) {
                 let (text, files) = sc::render(&sc);
+                println!("{text}");
+                for (p, t) in files {
+                    println!("# {p}: {}", t.trim_end());
+                }
+            } else if let Some(nc) = sc::nc::parse_case(&c) {
+                let (text, files) = sc::nc::render(&nc);
                 println!("{text}");
                 for (p, t) in files {
                     println!("# {p}: {}", t.trim_end());
@@ -810,13 +1227,20 @@ fn main() {
             emit(c, &obs, &sc::oracle(c, &obs));
             continue;
         }
+        if c.starts_with("nc ") {
+            let obs = sc::nc::run_case(c);
+            emit(c, &obs, &sc::nc::oracle(c, &obs));
+            continue;
+        }
         let obs = run_case(c);
         emit(c, &obs, &oracle_all(c, &obs, true));
     }
     if only {
         return;
     }
-    let n = if o.thorough() { 200_000 } else { 10_000 };
+    // `--only-nc` (development aid): only the last family
+    let only_nc = o.extra.iter().any(|a| a == "--only-nc");
+    let n = if only_nc { 0 } else if o.thorough() { 200_000 } else { 6_000 };
     let mut rng = Rng::new(o.seed ^ 0xC10);
     for k in 0..n {
         let s = rng.next();
@@ -843,7 +1267,7 @@ fn main() {
         emit(&case, &obs, &oracle_all(&case, &obs, with_real));
     }
     // the `sc` family: one structured simple command in context
-    let n = if o.thorough() { 200_000 } else { 8_000 };
+    let n = if only_nc { 0 } else if o.thorough() { 200_000 } else { 8_000 };
     let mut rng = Rng::new(o.seed ^ 0x5C10);
     for k in 0..n {
         let s = rng.next();
@@ -855,5 +1279,19 @@ fn main() {
         let case = sc::sx_case(&c);
         let obs = sc::run_case(&case);
         emit(&case, &obs, &sc::oracle(&case, &obs));
+    }
+    // the `nc` family: structured simple commands at any depth of the enclosing constructs
+    let n = if o.thorough() { 160_000 } else { 5_000 };
+    let mut rng = Rng::new(o.seed ^ 0x9C10);
+    for k in 0..n {
+        let s = rng.next();
+        if k % o.shard.1 != o.shard.0 {
+            continue;
+        }
+        let mut g = sc::nc::NGen { g: sc::Gen { rng: Rng::new(s), marker: 0, depth: 0 }, budget: if o.thorough() { 16 } else { 12 }, counter: 0 };
+        let c = g.case(s % 1000, 1 + (k % 4) as u32);
+        let case = sc::nc::sx_case(&c);
+        let obs = sc::nc::run_case(&case);
+        emit(&case, &obs, &sc::nc::oracle(&case, &obs));
     }
 }
